@@ -1915,6 +1915,10 @@ fn generate(seed: u64, tier_long: bool, cap: u64, compose: bool, stale: bool) ->
                         if s.conns.contains_key(&p) {
                             // the stale connection goes away first
                             events.extend(s.apply(&Ev::Closed(p), &mut trace).await);
+                            if s.parked {
+                                // the loop blocks on the full event channel: it takes no event now
+                                continue;
+                            }
                         }
                         Ev::Established(p, g.rng.chance(90))
                     } else {
